@@ -716,6 +716,40 @@ func (it *Interp) convert(v Value, from, to types.Type, fn *ssa.Function, pos to
 	if tb != nil && tb.Info()&types.IsString != 0 {
 		// string(b) of a buffer filled by hex.Encode
 		if sv, ok := it.asSlice(v); ok {
+			if _, isC := it.ApplyTerm(sv.Len).IsConst(); !isC {
+				// symbolic length (twice the length of a source of symbolic length): all pairs up to the bound
+				ln := it.ApplyTerm(sv.Len)
+				half := newTerm()
+				even := true
+				for _, m := range ln.mons {
+					if m.c.Bit(0) != 0 {
+						even = false
+					}
+					half.addMon(new(big.Int).Rsh(m.c, 1), m.preds, m.atom)
+				}
+				_, hi := ln.Bounds()
+				if even && hi.IsInt64() && sv.Lo+int(hi.Int64()) <= len(sv.Arr.Kids) {
+					var src []*Term
+					good := true
+					for i := 0; i+1 < int(hi.Int64()); i += 2 {
+						hv, ok1 := asTerm(it.loadValue(sv.Arr.Kids[sv.Lo+i]))
+						lv, ok2 := asTerm(it.loadValue(sv.Arr.Kids[sv.Lo+i+1]))
+						if !ok1 || !ok2 {
+							good = false
+							break
+						}
+						ah, al := hv.SingleAtom(), lv.SingleAtom()
+						if ah == nil || al == nil || ah.Kind != IWOp || al.Kind != IWOp || ah.Op != "hexhi" || al.Op != "hexlo" || !ah.Args[0].Equal(al.Args[0]) {
+							good = false
+							break
+						}
+						src = append(src, ah.Args[0])
+					}
+					if good {
+						return HexStr{Bytes: src, Len: half.norm()}
+					}
+				}
+			}
 			if l, isC := it.ApplyTerm(sv.Len).IsConst(); isC && l.Int64()%2 == 0 {
 				var src []*Term
 				good := true
